@@ -142,6 +142,13 @@ TFail(op, e, k, x, y) ==
     /\ sess' = "aborted"
     /\ UNCHANGED <<db, tx, cur, pendNew, pendDel, known, loadedB>>
 
+(* a conflict with a row the session had not indexed may also surface as TransactionIntegrityError while the
+   call loads that row (e.g. the one-to-one partner lookup): the transaction cannot go on *)
+HFail(op, e, k, x, y) ==
+    /\ ev' = Ev(op, e, k, x, y, "Integrity", {})
+    /\ sess' = "aborted"
+    /\ UNCHANGED <<db, tx, cur, pendNew, pendDel, known, loadedB>>
+
 (* Create A(id=k, v=x).
    live and indexed                      -> CacheIndexError at once
    live but not known to the session     -> either (error timing is free, C14)
@@ -155,6 +162,7 @@ CreateA(k, x) ==
        IN \/ /\ (live \/ pdel)
              /\ Fail("Create", "A", k, x, 0, "CacheIndexError", {})
           \/ TFail("Create", "A", k, x, 0)
+          \/ (live /\ ~indexed /\ HFail("Create", "A", k, x, 0))
           \/ /\ ~indexed /\ ~pdel
              /\ cur' = [cur EXCEPT !.A[k] = [ex |-> TRUE, v |-> x]]
              /\ pendNew' = pendNew \cup {<<"A", k>>}
@@ -185,6 +193,7 @@ CreateB(k, y, z) ==
        IN \/ /\ (live \/ pdel \/ uholders # {})
              /\ Fail("Create", "B", k, y, z, "CacheIndexError", learnt)
           \/ TFail("Create", "B", k, y, z)
+          \/ (((live /\ ~indexed) \/ (uholders # {} /\ ~uindexed)) /\ HFail("Create", "B", k, y, z))
           \/ /\ blocked
              /\ Fail("Create", "B", k, y, z, "ConstraintError", learnt \cup {<<"B", b0>> : b0 \in rival})
           \/ /\ ~indexed /\ ~pdel /\ ~uindexed /\ ~blocked
@@ -215,6 +224,7 @@ SetU(k, y) ==
        IN \/ /\ uholders # {}
              /\ Fail("SetU", "B", k, y, 0, "CacheIndexError", {<<"B", k>>})
           \/ TFail("SetU", "B", k, y, 0)
+          \/ (uholders # {} /\ ~uindexed /\ HFail("SetU", "B", k, y, 0))
           \/ /\ ~uindexed
              /\ cur' = [cur EXCEPT !.B[k].u = y]
              /\ known' = known \cup {<<"B", k>>}
@@ -240,6 +250,33 @@ SetRef(k, z) ==
              /\ known' = known \cup learnt \cup {<<"B", b0>> : b0 \in rival}
              /\ ev' = Ev("SetRef", "B", k, z, 0, "ok", {})
              /\ UNCHANGED <<db, tx, sess, pendNew, pendDel, loadedB>>
+
+(* b.set(u=y, a=z): both attributes change, all or nothing *)
+SetMany(k, y, z) ==
+    /\ Open /\ Rel # "m2m" /\ cur.B[k].ex /\ cur.B[k].u # y /\ cur.B[k].a # z
+    /\ (z # 0 => cur.A[z].ex)
+    /\ LET uholders == IF y = 0 THEN {} ELSE UHolders(y, k)
+           uindexed == uholders \cap loadedB # {}
+           rival    == Rival(k, z)
+           learnt   == {<<"B", k>>} \cup (IF z = 0 THEN {} ELSE {<<"A", z>>})
+           refBad   == z = 0 /\ BReq
+           rivalBad == rival # {} /\ BReq
+       IN \/ /\ uholders # {}
+             /\ Fail("SetMany", "B", k, y, z, "CacheIndexError", learnt)
+          \/ /\ refBad
+             /\ Fail("SetMany", "B", k, y, z, "ValueError", learnt)
+          \/ /\ rivalBad
+             /\ Fail("SetMany", "B", k, y, z, "ConstraintError", learnt \cup {<<"B", b0>> : b0 \in rival})
+          \/ TFail("SetMany", "B", k, y, z)
+          \/ (uholders # {} /\ ~uindexed /\ HFail("SetMany", "B", k, y, z))
+          \/ /\ ~uindexed /\ ~refBad /\ ~rivalBad
+             /\ cur' = [cur EXCEPT !.B = [j \in BIds |-> IF j = k THEN [cur.B[j] EXCEPT !.u = y, !.a = z]
+                                                      ELSE IF j \in rival THEN [cur.B[j] EXCEPT !.a = 0]
+                                                      ELSE cur.B[j]]]
+             /\ known' = known \cup learnt \cup {<<"B", b0>> : b0 \in rival}
+             /\ loadedB' = loadedB \cup {k}
+             /\ ev' = Ev("SetMany", "B", k, y, z, "ok", {})
+             /\ UNCHANGED <<db, tx, sess, pendNew, pendDel>>
 
 (* deleting objects in the session's view: bookkeeping of pending sets *)
 AfterDelete(objs) ==
@@ -453,6 +490,7 @@ Modify == \/ \E k \in AIds, x \in ValsN : CreateA(k, x) \/ SetV(k, x)
           \/ \E k \in BIds, y \in ValsN, z \in AIds \cup {0} : CreateB(k, y, z)
           \/ \E k \in BIds, y \in ValsN : SetU(k, y)
           \/ \E k \in BIds, z \in AIds \cup {0} : SetRef(k, z)
+          \/ \E k \in BIds, y \in ValsN, z \in AIds \cup {0} : SetMany(k, y, z)
           \/ \E a \in AIds, b \in BIds : CollAdd(a, b) \/ CollRemove(a, b)
           \/ \E a \in AIds : CollClear(a) \/ DeleteA(a)
           \/ \E b \in BIds : DeleteB(b)
